@@ -27,7 +27,7 @@ func run(r *core.Run) {
 	if only == "" || only == "gaps" {
 		gapsExhaustive(r)
 	}
-	if only == "" || only == "trees" {
+	if only == "" || only == "trees" || only == "dsl" || only == "corpus" {
 		trees(r)
 	}
 }
